@@ -1,0 +1,29 @@
+//go:build verif
+
+// Contracts for the verif framework (/verif). Comment-only: this file
+// declares nothing and is compiled only with -tags=verif.
+
+package txtar
+
+//@ property C03: isMarker
+
+// Vocabulary (from the txtar format description and property C03/C14).
+// Positions are absolute positions in the byte array underlying d:
+// lo(d) <= P <= hi(d).
+//
+//@ pure func lineStartA(d []byte, P int) bool = P == lo(d) || at(d, P-1) == '\n'
+//
+// End of the text of the line starting at P: one trailing CR is not part of the
+// text, whether the line ends in LF or at the end of input.
+//@ pure func lendA(d []byte, P int) int = (eol(d,P) > P && at(d, eol(d,P)-1) == '\r') ? eol(d,P)-1 : eol(d,P)
+//
+//@ pure func markerAtA(d []byte, P int) bool = P + 3 <= hi(d) && at(d,P) == '-' && at(d,P+1) == '-' && at(d,P+2) == ' ' && lendA(d,P) - P >= 6 && at(d, lendA(d,P)-3) == ' ' && at(d, lendA(d,P)-2) == '-' && at(d, lendA(d,P)-1) == '-' && len(TrimSpace(mkseq(arrof(d), P+3, lendA(d,P)-3))) != 0
+//
+//@ pure func nameAtA(d []byte, P int) string = TrimSpace(mkseq(arrof(d), P+3, lendA(d,P)-3))
+
+//@ func isMarker
+//@   pure
+//@   ensures (name != "") == markerAtA(data, lo(data))
+//@   ensures name != "" ==> name == nameAtA(data, lo(data))
+//@   ensures name != "" && eol(data, lo(data)) < hi(data) ==> sameSlice(after, data[eol(data, lo(data)) + 1 - lo(data):])
+//@   ensures name != "" && eol(data, lo(data)) == hi(data) ==> after == nil
